@@ -4,6 +4,7 @@ One run of `Ex` follows ONE path; `explore()` re-runs with decision prefixes unt
 path has been followed (depth-first).  Obligations are collected as (name, path-condition, goal).
 """
 import ast
+import re
 import builtins as _bi
 
 import z3
@@ -1614,6 +1615,12 @@ class Ex:
             m = w.speclib.model_method(obj.cls, name)
             if m is not None:
                 return m.bind(obj)
+            if re.match(r"_[A-Za-z0-9]+__\w*[^_]_?$", name) and not self.spec_mode:
+                mod_ = w.module_of_class(obj.cls)
+                if mod_ is not None and mod_.mro_lookup(obj.cls, name) is None and mod_.mro_lookup(obj.cls, "__" + name[1:].split("__", 1)[1]) is None:
+                    # private state of the class that the contract's object model does not list: the contract is out of date with
+                    # the class (not an AttributeError of the real object, whose __init__ sets it)
+                    raise Unsupported("private attribute %s is not part of the contract's object model of %s" % (name, obj.cls))
             return self.class_attr(obj.cls, name, obj, node)
         if isinstance(obj, VClass):
             return self.class_attr(obj.name, name, None, node, mod=obj.info.module, via_class=obj)
